@@ -115,4 +115,5 @@ def edif_option_product(tier):
                 for comments in (False, True):
                     for dc in ("decl", "upper", "lower"):
                         out.append({"refcase": refcase, "always_rename": always, "libref_same": lr, "comments": comments, "design_case": dc})
+                        out.append({"refcase": refcase, "always_rename": always, "libref_same": lr, "comments": comments, "design_case": dc, "rich": True})
     return out
